@@ -198,3 +198,56 @@ CONTRACTS = [
       requires={"wf": "wf(self)"}, raises={"ValueError": BOTH},
       ensures={"result": "result == (card(CLASSES(self, order, size)) == 1)"}),
 ]
+
+
+# ---- is_isolated / isolated_nodes applied to the directed and temporal containers (through their verified get_neighbors), and the methods that
+# delegate to them: a node is isolated iff no (filtered) hyperedge joins it to another node, in either role / at any time
+def _iso_variants(cls, mod, joined):
+    hgp = {"hg": f"Obj[{cls}]"}
+    iso = f"(card({{m for m in Node if m != node and any(k in E(H) and {joined} and sel(H, k, order, size, False) for k in Key)}}) == 0)"
+    out = [
+        Contract(f"is_isolated[{cls}]", FILE, ["is_isolated"], params={**hgp, "node": "Node", **OS}, result="Bool", pure=True, properties=["C08"],
+                 requires={"wf": "wf(hg)"}, raises={"ValueError": f"({BOTH}) or node not in V(hg)"},
+                 ensures={"result": "result == " + iso.replace("(H", "(hg")}),
+        Contract(f"isolated_nodes[{cls}]", FILE, ["isolated_nodes"], params={**hgp, **OS}, result="Bag[Int]", pure=True, properties=["C08"],
+                 requires={"wf": "wf(hg)"}, raises={"ValueError": BOTH},
+                 ensures={"result": "all(count(result, node) == (1 if node in V(hg) and " + iso.replace("(H", "(hg") + " else 0) for node in Node)"}),
+        Contract(f"{cls}.is_isolated", mod.FILE, [cls, "is_isolated"], self_cls=cls, properties=["C08"],
+                 params={"node": "Node", "size": "Opt[Int]", "order": "Opt[Int]"}, result="Bool", pure=True,
+                 requires={"wf": "wf(self)"}, raises={"ValueError": f"({BOTH}) or node not in V(self)"},
+                 ensures={"result": "result == " + iso.replace("(H", "(self")}),
+        Contract(f"{cls}.isolated_nodes", mod.FILE, [cls, "isolated_nodes"], self_cls=cls, properties=["C08"],
+                 params={"size": "Opt[Int]", "order": "Opt[Int]"}, result="Bag[Int]", pure=True,
+                 requires={"wf": "wf(self)"}, raises={"ValueError": BOTH},
+                 ensures={"result": "all(count(result, node) == (1 if node in V(self) and " + iso.replace("(H", "(self") + " else 0) for node in Node)"}),
+    ]
+    return out
+
+
+from . import directed as _D, temporal as _T      # noqa: E402
+CONTRACTS += _iso_variants("DirectedHypergraph", _D, "(node in fst(k) or node in snd(k)) and (m in fst(k) or m in snd(k))")
+CONTRACTS += _iso_variants("TemporalHypergraph", _T, "node in snd(k) and m in snd(k)")
+
+
+# ---- degree_distribution applied to the directed and temporal containers (the histogram of the verified degree sequence under the same filter),
+# and the methods of the three classes that delegate to it
+from . import hypergraph as _H      # noqa: E402
+
+
+def _dd_variants(cls, mod, member, props):
+    seqval = f'all(local("degree_seq")[n] == card({{k for k in E(H) if {member} and sel(H, k, order, size, False)}}) for n in V(H))'
+    return [
+        Contract(f"degree_distribution[{cls}]", "hypergraphx/measures/degree.py", ["degree_distribution"], properties=props,
+                 params={"hg": f"Obj[{cls}]", "order": "Opt[Int]", "size": "Opt[Int]"}, result="Map[Int,Int]", pure=True,
+                 locals={"degree_dist": "Map[Int,Int]", "degree_seq": "Map[Int,Int]"},
+                 requires={"wf": "wf(hg)"},
+                 raises={"ValueError": "order is not None and size is not None"},
+                 ensures={"dom": _H._hist_post("dom"), "val": _H._hist_post("val"),
+                          "seq_dom": 'all((n in local("degree_seq")) == (n in V(hg)) for n in Node)',
+                          "seq_val": seqval.replace("(H", "(hg")},
+                 invariants={0: {"hist": _H._hist_inv}}),
+    ]
+
+
+CONTRACTS += _dd_variants("DirectedHypergraph", _D, "(n in fst(k) or n in snd(k))", ["C02", "C08"])
+CONTRACTS += _dd_variants("TemporalHypergraph", _T, "n in snd(k)", ["C03", "C08"])
